@@ -83,6 +83,25 @@ def r1(ctx):
             break
     if not n_ev:
         raise AnalysisError("associate: no call of evaluate_for_platform in the visitor's decision table")
+    # who may write the canonical-name memo: only the memoising getter itself (and the constructor, which creates it
+    # empty); an entry written from anywhere else is a "canonical" name that realpath never produced
+    n_w = 0
+    for g in repo.all_functions():
+        for x in g.body_nodes(helpers=False):
+            tgt = None
+            if isinstance(x, ast.Subscript) and isinstance(x.ctx, (ast.Store, ast.Del)) and u(x.value).endswith("._path_cache"):
+                tgt = x
+            elif isinstance(x, ast.Call) and isinstance(x.func, ast.Attribute) and u(x.func.value).endswith("._path_cache") and x.func.attr in ("update", "setdefault", "pop", "clear", "popitem", "__setitem__"):
+                tgt = x
+            elif isinstance(x, (ast.Assign, ast.AugAssign)) and any(u(t).endswith("._path_cache") for t in (x.targets if isinstance(x, ast.Assign) else [x.target])) and not (g.name == "__init__" and g.cls is ps):
+                tgt = x
+            if tgt is None:
+                continue
+            n_w += 1
+            ok_w = g.cls is ps and g.name == "_get_realpath"
+            ctx.check(ok_w, f"{g.key}:writes:_path_cache:{u(tgt)[:50]}", f"`{u(tgt)[:70]}` writes the canonical-name memo from outside ParserState._get_realpath: the names it records were not produced by realpath (a symlink recorded as its own canonical name gets a tree of its own)", g.loc(tgt))
+    if not n_w:
+        raise AnalysisError("no write to ParserState._path_cache found at all (positive control: _get_realpath must fill it)")
     # FileParser opens the canonical path it was given
     ins = ps.find_method("insert_file")
     fp = [c for c in ins.calls() if (dotted(c.func) or "").endswith("FileParser")]
